@@ -12,13 +12,20 @@ Structural clauses decided:
  R4 subsystem protocol    every method the glue lambdas call exists with a compatible signature on every supported
                           subsystem class (Frame, PointMass, RigidBody, all rod variants)
  R5 joint definitions     each concrete joint passes axes/pairs consistent with its constructor
+ R7 block typing          (engine K9) in g_q, g_dot_q, W_g, Wla_g_q a block whose slice selects body c's coordinates (":nq1" / "nq1:") or
+                          velocities holds only body c's companions; same for two-part concatenations
+ R8 relative polarity     (engine K9) the sign with which body-2 terms enter relative to body-1 terms (point and rotation family)
+                          is the same in g and in each derivative routine where it is syntactically determinate
+ R6 Leibniz support       (engine K10) the set of factor-monomials of every derivative routine equals the Leibniz image of
+                          its primal's monomials: d/dq, d/du, d/dt of g, g_dot, W_g*la_g per joint base class.  Catches a
+                          term carrying the wrong body's factor (Omega1 for Omega2) even though all companions are referenced
 """
 from __future__ import annotations
 
 import ast
 
 from ..core import AnalysisError, dotted, norm_src
-from .. import deriv, mirror, protocol
+from .. import deriv, mirror, protocol, support, twobody
 
 EXPLANATION = ("K5 chain-rule coverage over the joint base classes; delegation idiom for g_dot_u; AST mirror comparison "
                "(identifier swap 1<->2, slice mirroring, einsum canonicalisation) of the subsystem glue; signature "
@@ -32,12 +39,19 @@ JOINT_BASES = [(BASE, "PositionOrientationBase"), (BASE, "ProjectedPositionOrien
                ("cardillo/constraints/fixed_distance.py", "FixedDistance")]
 
 
+K10_PAIRS = [("g", "g_q", "q", None), ("g", "g_dot", "t", None), ("g_dot", "g_dot_q", "q", None), ("g_dot", "g_ddot", "t", None),
+             ("g_dot", "W_g", "u", None), ("W_g", "Wla_g_q", "q", "la_g")]
+
+
 def run(ctx):
     rep = ctx.rep
     rep.rule("C05.R1", "chain-rule coverage of constraint derivatives and time chain (K5)", 20)
     rep.rule("C05.R2", "g_dot_u = W_g.T by construction", 3)
     rep.rule("C05.R3", "mirror symmetry of subsystem-1 / subsystem-2 glue", 20)
     rep.rule("C05.R4", "subsystem protocol of the glue lambdas", 15)
+    rep.rule("C05.R7", "two-body block typing: a block selecting body c's coordinates / velocities holds only body c's derivative quantities (K9)", 40)
+    rep.rule("C05.R8", "relative polarity of body-2 vs body-1 terms agrees between the constraint and its derivatives (K9)", 25)
+    rep.rule("C05.R6", "Leibniz image of the primal's factor monomials equals the derivative routine's monomials (K10)", 18)
     model = ctx.model
     wanted = {"g", "g_q", "g_dot", "g_dot_q", "g_ddot", "W_g", "Wla_g_q", "g_dot_u"}
     for rel, cname in JOINT_BASES:
@@ -58,6 +72,23 @@ def run(ctx):
             rep.bad("C05.R2", C, body[-1], f"g_dot_u refers to W_g but is not its plain transpose `{want}`", f"{rel}:{fn.lineno}")
         else:
             rep.note(f"C05.R2: {cname}.g_dot_u does not delegate to W_g; transposition not decided structurally")
+    # R7 / R8 K9
+    chain = ["g", "g_q", "g_dot", "g_dot_q", "g_ddot", "W_g", "Wla_g_q"]
+    for rel, cname in JOINT_BASES:
+        ci = model.cls(cname, rel)
+        for name in chain:
+            fn = ci.methods.get(name)
+            if fn is None:
+                raise AnalysisError(f"{rel}:{cname}.{name} vanished")
+            twobody.check_typing(rep, "C05.R7", f"{rel}:{cname}.{name}", rel, fn)
+        twobody.check_polarity(rep, "C05.R8", ci, chain)
+    # R6 K10
+    for rel, cname in JOINT_BASES:
+        ci = model.cls(cname, rel)
+        view = protocol.ClassView(ctx, ci)
+        for p, d, mode, extra in K10_PAIRS:
+            c, fn = view.method(d)
+            support.check(rep, "C05.R6", view, f"{rel}:{cname}.{d}", rel, p, d, mode, extra, lineno=getattr(fn, "lineno", 0))
     # R3 mirror of auxiliary_functions
     fn = ctx.repo.get(BASE, "auxiliary_functions")
     lam = {}
@@ -165,7 +196,28 @@ MUTANTS = [
                 (PB, "                Wla_g_q[:nu1, nq1:] += np.einsum(\n                    \"ik,ij->jk\", la_g[i] * ax2skew(A_IJ1[:, ax]) @ r_OJ2_q2, J_R1\n                )\n", "")]),
 ]
 MUTANTS = [m for m in MUTANTS if not m.get("optional")]
+# K10 (C05.R6) mutants: every companion is still referenced somewhere in the routine, so K5 (function granularity) is blind
+MUTANTS += [
+    dict(id="c05-k10-seed", canary=True, what="[seeded by sub-agent] PositionOrientationBase.g_ddot differentiates e_b with Omega1 instead of Omega2", file=PB,
+         old="                g_ddot[3 + i] = (\n                    cross3(cross3(Omega1, e_a), e_b) + cross3(e_a, cross3(Omega2, e_b))",
+         new="                g_ddot[3 + i] = (\n                    cross3(cross3(Omega1, e_a), e_b) + cross3(e_a, cross3(Omega1, e_b))", expect="C05.R6"),
+    dict(id="c05-k10-2", what="ProjectedPositionOrientationBase.g_ddot: same fault in the projected base", file=PB,
+         old="                g_ddot[self.nla_g_trans + i] = (\n                    cross3(cross3(Omega1, e_a), e_b) + cross3(e_a, cross3(Omega2, e_b))",
+         new="                g_ddot[self.nla_g_trans + i] = (\n                    cross3(cross3(Omega2, e_a), e_b) + cross3(e_a, cross3(Omega2, e_b))", expect="C05.R6"),
+]
+# K9 mutants: monomial sets and companion references are unchanged, only the block or the sign is wrong
+MUTANTS += [
+    dict(id="c05-k9-1", canary=True, what="PositionOrientationBase.Wla_g_q: the J_J2_q2 term is stored in the body-1 column block", file=PB,
+         old="        Wla_g_q[nu1:, nq1:] += np.einsum(\"i,ijk->jk\", la_g[:3], self.J_J2_q2(t, q))\n\n        if self.constrain_orientation:\n            A_IJ1 = self.A_IJ1(t, q)\n            A_IJ2 = self.A_IJ2(t, q)\n\n            A_IJ1_q1 = self.A_IJ1_q1(t, q)\n            A_IJ2_q2 = self.A_IJ2_q2(t, q)\n\n            J_R1 = self.J_R1(t, q)",
+         new="        Wla_g_q[nu1:, :nq1] += np.einsum(\"i,ijk->jk\", la_g[:3], self.J_J2_q2(t, q))\n\n        if self.constrain_orientation:\n            A_IJ1 = self.A_IJ1(t, q)\n            A_IJ2 = self.A_IJ2(t, q)\n\n            A_IJ1_q1 = self.A_IJ1_q1(t, q)\n            A_IJ2_q2 = self.A_IJ2_q2(t, q)\n\n            J_R1 = self.J_R1(t, q)", expect="C05.R7"),
+    dict(id="c05-k9-2", canary=True, what="PositionOrientationBase.g_q: sign of the body-2 position block flipped", file=PB,
+         old="        g_q[:3, :nq1] = -self.r_OJ1_q1(t, q)\n        g_q[:3, nq1:] = self.r_OJ2_q2(t, q)", new="        g_q[:3, :nq1] = -self.r_OJ1_q1(t, q)\n        g_q[:3, nq1:] = -self.r_OJ2_q2(t, q)", expect="C05.R8"),
+    dict(id="c05-k9-3", what="FixedDistance.g_dot_q: both blocks carry the factor -2", file="cardillo/constraints/fixed_distance.py",
+         old="        g_dot_q[:, self._nq1 :] = 2 * (\n            r_J1J2 @ self.v_J2_q2(t, q, u)", new="        g_dot_q[:, self._nq1 :] = -2 * (\n            r_J1J2 @ self.v_J2_q2(t, q, u)", expect="C05.R8"),
+]
 NEUTRAL = [
+    dict(id="c05-n-k9", canary=True, what="explicit -1.0 factor instead of unary minus in g_q", file=PB,
+         old="        g_q[:3, :nq1] = -self.r_OJ1_q1(t, q)\n        g_q[:3, nq1:] = self.r_OJ2_q2(t, q)", new="        g_q[:3, :nq1] = -1.0 * self.r_OJ1_q1(t, q)\n        g_q[:3, nq1:] = 1.0 * self.r_OJ2_q2(t, q)"),
     dict(id="c05-n1", canary=True, what="einsum indices renamed consistently in A_IJ2_q2", file=PB,
          old='        "ijk,jl->ilk", object.subsystem2.A_IB_q(t, q[nq1:], object.xi2), A_K2B0', new='        "abc,bd->adc", object.subsystem2.A_IB_q(t, q[nq1:], object.xi2), A_K2B0'),
 ]
